@@ -59,6 +59,27 @@ pub fn build_pass_1(
 
     let ram_filling = data_offset - device.ram_start;
 
+    // The layout is known here: refuse a program that cannot fit the device before pass 2
+    // starts to materialise the images (a stray `.org` would otherwise allocate gigabytes).
+    if code_offset > device.flash_size {
+        bail!(
+            "Flash size overdue by {} bytes",
+            (code_offset as u64 - device.flash_size as u64) * 2
+        )
+    }
+    if eeprom_offset > device.eeprom_size {
+        bail!(
+            "Eeprom size overdue by {} bytes",
+            eeprom_offset - device.eeprom_size
+        )
+    }
+    if ram_filling > device.ram_size {
+        bail!(
+            "RAM size overdue by {} bytes",
+            ram_filling - device.ram_size
+        )
+    }
+
     Ok(BuildResultPass1 {
         segments,
         ram_filling,
